@@ -1,4 +1,243 @@
-(* placeholder while the proofs are being written *)
-Require Import KV.Dict.Model KV.Dict.Spec.
-Example C15_smoke : d_encode d_new 5 = Ok (mkBimap [(5,0)] [(0,5)] 1, 0).
-Proof. reflexivity. Qed.
+(* C15 - Term identifiers are a stable bijection, also across database union.
+   This file contains only the property theorems; each is closed by `exact <lemma>` and followed by
+   Print Assumptions.  The lemmas live in BimapProofs.v, Proofs.v and UnionProofs.v; the model
+   (Dictionary, QuotedTripleStore, encode_term_star, decode_any, reencode_term_id, union) in Model.v.
+
+   Vocabulary (definitions in Proofs.v / UnionProofs.v / Spec.v):
+     run s ops = Ok (s', outs)   the call sequence `ops` (Enc = Dictionary::encode, Dec = Dictionary::decode,
+                                 EncQ / DecQ = QuotedTripleStore::encode / decode, EncT = encode_term_star,
+                                 DecT = decode_any) ran from state s without hitting the dictionary's
+                                 exhaustion assert (`Err Exhausted`), ended in s' and returned `outs`
+     called ops outs k o x       the k-th call was `o` and it returned `x`
+     valid s ops                 every raw id passed to QuotedTripleStore::encode had been handed out before
+     BInv s                      both pairs of maps are mutually inverse, the dictionary's ids are exactly
+                                 [0, next_id), the quoted ids exactly [2^31, next_qt_id), next_id <= 2^31
+     SInv s                      BInv and: the components of a quoted id are ids handed out before it
+     denotes s i t / decode_any  the lexical term (tree over lexical forms) that id i stands for
+     WF d                        SInv of the database's stores, and every id in its quads, graph catalog
+                                 and seeds is defined by them
+     den d                       the lexical dataset of d: everything decoded with decode_any *)
+Require Import KV.Dict.Model KV.Dict.Spec KV.Dict.BimapProofs KV.Dict.Proofs KV.Dict.UnionProofs KV.Dict.SeedProofs.
+
+(* ---- the invariant, for every call sequence ---- *)
+Theorem C15_invariant :
+  forall ops s outs, run st_new ops = Ok (s, outs) ->
+    BInv s /\ (valid st_new ops -> SInv s).
+Proof.
+  intros ops s outs H. split.
+  - exact (proj1 (run_B _ _ _ _ BInv_new H)).
+  - intros Hv. exact (proj1 (run_S _ _ _ _ SInv_new Hv H)).
+Qed.
+Print Assumptions C15_invariant.
+
+(* `valid` is no restriction on the loader path: a history without raw QuotedTripleStore::encode calls
+   (Dictionary::encode/decode, encode_term_star, decode_any, QuotedTripleStore::decode) is always valid *)
+Theorem C15_valid_without_raw :
+  forall ops s, Forall no_raw ops -> valid s ops.
+Proof. exact valid_no_raw. Qed.
+Print Assumptions C15_valid_without_raw.
+
+(* ---- a term always encodes to the same identifier; distinct terms never share one ----
+   (for any two encode calls anywhere in any history: equal ids iff equal terms) *)
+Theorem C15_encode_bijective :
+  forall ops s outs k k' x x' i i',
+    run st_new ops = Ok (s, outs) ->
+    called ops outs k (Enc x) (OId i) -> called ops outs k' (Enc x') (OId i') ->
+    (i = i' <-> x = x').
+Proof. exact hist_encode_bijective. Qed.
+Print Assumptions C15_encode_bijective.
+
+(* ---- decoding returns the original term ---- *)
+Theorem C15_decode_encode :
+  forall ops s outs k k' x i r,
+    run st_new ops = Ok (s, outs) -> (k < k')%nat ->
+    called ops outs k (Enc x) (OId i) -> called ops outs k' (Dec i) (OLex r) -> r = Some x.
+Proof. exact hist_decode_encode. Qed.
+Print Assumptions C15_decode_encode.
+
+(* ---- and encoding what was decoded returns the identifier ---- *)
+Theorem C15_encode_decode :
+  forall ops s outs k k' x i j,
+    run st_new ops = Ok (s, outs) -> (k < k')%nat ->
+    called ops outs k (Dec i) (OLex (Some x)) -> called ops outs k' (Enc x) (OId j) -> j = i.
+Proof. exact hist_encode_decode. Qed.
+Print Assumptions C15_encode_decode.
+
+(* ---- identifiers handed out earlier never change as more terms arrive ----
+   every binding of the four maps survives any later call sequence, and re-encoding returns the old id
+   without changing the state *)
+Theorem C15_encode_stable :
+  forall ops1 ops2 s1 o1 s2 o2,
+    run st_new ops1 = Ok (s1, o1) -> run s1 ops2 = Ok (s2, o2) ->
+    (forall x i, d_get (sd s1) x = Some i -> d_get (sd s2) x = Some i) /\
+    (forall i x, d_decode (sd s1) i = Some x -> d_decode (sd s2) i = Some x) /\
+    (forall k i, q_get (sq s1) k = Some i -> q_get (sq s2) k = Some i) /\
+    (forall i k, q_decode (sq s1) i = Some k -> q_decode (sq s2) i = Some k) /\
+    (forall x i, d_get (sd s1) x = Some i -> step s2 (Enc x) = Ok (s2, OId i)) /\
+    (forall a b c i, q_get (sq s1) (a, b, c) = Some i -> step s2 (EncQ a b c) = Ok (s2, OId i)).
+Proof. exact stable_bindings. Qed.
+Print Assumptions C15_encode_stable.
+
+(* the same for whole (possibly quoted) terms *)
+Theorem C15_terms_stable :
+  forall ops1 ops2 s1 o1 s2 o2,
+    valid st_new ops1 -> run st_new ops1 = Ok (s1, o1) -> valid s1 ops2 -> run s1 ops2 = Ok (s2, o2) ->
+    forall i t, decode_any s1 i = Ok t ->
+      decode_any s2 i = Ok t /\ step s2 (EncT t) = Ok (s2, OId i).
+Proof. exact stable_terms. Qed.
+Print Assumptions C15_terms_stable.
+
+(* ---- quoted triples live in a range disjoint from plain terms ---- *)
+Theorem C15_range_plain :
+  forall ops s outs k x i,
+    run st_new ops = Ok (s, outs) -> called ops outs k (Enc x) (OId i) -> is_quoted i = false.
+Proof. exact hist_range_plain. Qed.
+Print Assumptions C15_range_plain.
+
+Theorem C15_range_quoted :
+  forall ops s outs k a b c i,
+    run st_new ops = Ok (s, outs) -> called ops outs k (EncQ a b c) (OId i) -> is_quoted i = true.
+Proof. exact hist_range_quoted. Qed.
+Print Assumptions C15_range_quoted.
+
+Theorem C15_range_term :
+  forall ops s outs k t i,
+    valid st_new ops -> run st_new ops = Ok (s, outs) -> called ops outs k (EncT t) (OId i) ->
+    is_quoted i = match t with TLeaf _ => false | TQuote _ _ _ => true end.
+Proof. exact hist_range_term. Qed.
+Print Assumptions C15_range_term.
+
+(* the model's range test is the code's bit test on every u32 *)
+Theorem C15_is_quoted_bit31 : forall i, i < 4294967296 -> is_quoted i = N.testbit i 31.
+Proof. exact is_quoted_bit31. Qed.
+Print Assumptions C15_is_quoted_bit31.
+
+(* ---- quoted triples are identified structurally ---- *)
+Theorem C15_qt_structural_ids :
+  forall ops s outs k k' a b c a' b' c' i i',
+    run st_new ops = Ok (s, outs) ->
+    called ops outs k (EncQ a b c) (OId i) -> called ops outs k' (EncQ a' b' c') (OId i') ->
+    (i = i' <-> (a, b, c) = (a', b', c')).
+Proof. exact hist_qt_structural_ids. Qed.
+Print Assumptions C15_qt_structural_ids.
+
+Theorem C15_qt_structural_terms :
+  forall ops s outs k k' t t' i i',
+    valid st_new ops -> run st_new ops = Ok (s, outs) ->
+    called ops outs k (EncT t) (OId i) -> called ops outs k' (EncT t') (OId i') ->
+    (i = i' <-> t = t').
+Proof. exact hist_qt_structural_terms. Qed.
+Print Assumptions C15_qt_structural_terms.
+
+(* encode_term_star on a plain term is Dictionary::encode *)
+Theorem C15_term_vs_plain :
+  forall ops s outs k k' x i i',
+    valid st_new ops -> run st_new ops = Ok (s, outs) ->
+    called ops outs k (Enc x) (OId i) -> called ops outs k' (EncT (TLeaf x)) (OId i') -> i = i'.
+Proof. exact hist_term_vs_plain. Qed.
+Print Assumptions C15_term_vs_plain.
+
+(* decoding a (possibly nested) quoted id returns the original term; in particular the recursion
+   neither runs out of fuel nor meets an undefined component *)
+Theorem C15_decode_term :
+  forall ops s outs k k' t i r,
+    valid st_new ops -> run st_new ops = Ok (s, outs) -> (k < k')%nat ->
+    called ops outs k (EncT t) (OId i) -> called ops outs k' (DecT i) (OTerm r) -> r = Ok t.
+Proof. exact hist_decode_term. Qed.
+Print Assumptions C15_decode_term.
+
+Theorem C15_decode_quoted :
+  forall ops s outs k k' a b c i r,
+    run st_new ops = Ok (s, outs) -> (k < k')%nat ->
+    called ops outs k (EncQ a b c) (OId i) -> called ops outs k' (DecQ i) (OKey r) -> r = Some (a, b, c).
+Proof. exact hist_decode_quoted. Qed.
+Print Assumptions C15_decode_quoted.
+
+(* every id of a well-formed state decodes (termination of decode_term with the model's fuel) *)
+Theorem C15_decode_total :
+  forall s i, SInv s -> defined s i -> exists t, decode_any s i = Ok t.
+Proof.
+  intros s i Hs Hd. destruct (defined_decodes s i Hs Hd) as [t Ht].
+  exists t. exact (decode_any_complete s i t Hs Ht).
+Qed.
+Print Assumptions C15_decode_total.
+
+(* ---- union ---- *)
+(* The union of two well-formed databases denotes exactly the union of their lexical datasets:
+   quads, graph identities (including empty named graphs), dictionary terms and quoted terms;
+   it is well-formed again and the left operand's identifiers keep their meaning in it. *)
+Theorem C15_union :
+  forall a b u, WF a -> WF b -> union a b = Ok u ->
+    WF u /\ ext (dst a) (dst u) /\ is_union (den a) (den b) (den u).
+Proof. exact union_correct. Qed.
+Print Assumptions C15_union.
+
+(* probability seeds: the union binds a lexical triple to the right operand's seed if it has one,
+   otherwise to the left operand's *)
+Theorem C15_union_seeds :
+  forall a b u, WF a -> WF b -> union a b = Ok u -> is_union_seeds (den a) (den b) (den u).
+Proof. exact union_seeds_correct. Qed.
+Print Assumptions C15_union_seeds.
+
+(* On well-formed operands union never panics on a missing id and its recursion never runs out of the
+   model's fuel: the only failure is the dictionary's exhaustion assert. *)
+Theorem C15_union_total :
+  forall a b, WF a -> WF b -> (exists u, union a b = Ok u) \/ union a b = Err Exhausted.
+Proof. exact union_total. Qed.
+Print Assumptions C15_union_total.
+
+(* Every database populated through the public API (add_quad_parts, add_triple_parts,
+   add_tagged_triple, encode_term_star, create_graph, delete_quad) is well-formed ... *)
+Theorem C15_built_WF :
+  forall ops d, build db_new ops = Ok d -> WF d.
+Proof. intros ops d H. exact (proj1 (build_WF ops db_new d WF_new H)). Qed.
+Print Assumptions C15_built_WF.
+
+(* ... so for all pairs of independently populated databases: *)
+Theorem C15_union_built :
+  forall opsA opsB a b u,
+    build db_new opsA = Ok a -> build db_new opsB = Ok b -> union a b = Ok u ->
+    is_union (den a) (den b) (den u) /\ is_union_seeds (den a) (den b) (den u).
+Proof.
+  intros opsA opsB a b u Ha Hb Hu.
+  pose proof (proj1 (build_WF opsA db_new a WF_new Ha)) as Wa.
+  pose proof (proj1 (build_WF opsB db_new b WF_new Hb)) as Wb.
+  split.
+  - exact (proj2 (proj2 (union_correct a b u Wa Wb Hu))).
+  - exact (union_seeds_correct a b u Wa Wb Hu).
+Qed.
+Print Assumptions C15_union_built.
+
+(* ---- non-vacuity ---- *)
+(* a valid history with nested quoted terms, clashing re-encodes and decodes *)
+Example C15_example_history :
+  let ops := [Enc 5; Enc 7; Enc 5; EncQ 0 1 0;
+              EncT (TQuote (TQuote (TLeaf 5) (TLeaf 7) (TLeaf 5)) (TLeaf 9) (TLeaf 5));
+              DecT 2147483649; Dec 1; DecQ 2147483648] in
+  valid st_new ops /\
+  exists s, run st_new ops =
+    Ok (s, [OId 0; OId 1; OId 0; OId 2147483648; OId 2147483649;
+            OTerm (Ok (TQuote (TQuote (TLeaf 5) (TLeaf 7) (TLeaf 5)) (TLeaf 9) (TLeaf 5)));
+            OLex (Some 7); OKey (Some (0, 1, 0))]).
+Proof.
+  split.
+  - apply validb_sound. vm_compute. reflexivity.
+  - eexists. vm_compute. reflexivity.
+Qed.
+
+(* two independently populated databases whose identifiers clash (id 0 is term 1 in a and term 3 in b),
+   with a shared nested quoted term, an empty named graph on each side and clashing seeds *)
+Example C15_example_union :
+  let opsA := [BAddQuad (TLeaf 1) (TLeaf 2) (TQuote (TLeaf 1) (TLeaf 2) (TLeaf 3)) 9; BTagged 1 2 3 4; BCreate 12] in
+  let opsB := [BAddStar (TLeaf 3) (TLeaf 2) (TQuote (TLeaf 1) (TLeaf 2) (TLeaf 3)); BTagged 1 2 3 7; BCreate 13] in
+  exists a b u,
+    build db_new opsA = Ok a /\ build db_new opsB = Ok b /\ union a b = Ok u /\
+    d_decode (sd (dst a)) 0 = Some 1 /\ d_decode (sd (dst b)) 0 = Some 3 /\
+    den_quads u = [(TLeaf 3, TLeaf 2, TQuote (TLeaf 1) (TLeaf 2) (TLeaf 3), None);
+                   (TLeaf 1, TLeaf 2, TQuote (TLeaf 1) (TLeaf 2) (TLeaf 3), Some (TLeaf 9));
+                   (TLeaf 1, TLeaf 2, TLeaf 3, None)] /\
+    den_seeds u = [(TLeaf 1, TLeaf 2, TLeaf 3, 7)].
+Proof.
+  do 3 eexists. split; [vm_compute; reflexivity|]. split; [vm_compute; reflexivity|]. split; [vm_compute; reflexivity|].
+  split; [vm_compute; reflexivity|]. split; [vm_compute; reflexivity|]. split; vm_compute; reflexivity.
+Qed.
